@@ -56,7 +56,18 @@ def make_worker_case(index, rng, tier):
         # worker until it exits and must keep its heartbeat up while it drains
         c = rng.choice(clients)
         term_at = round(c["t"] + rng.uniform(0.0, max(0.05, c["dur"])), 2)
+    binds = 1
+    if not sat and rng.randrange(3) == 0:
+        # two listening addresses; some clients arrive on both at the same instant
+        binds = 2
+        for c in clients:
+            c["addr"] = rng.randrange(2)
+        if len(clients) >= 2 and rng.randrange(2):
+            i = rng.randrange(len(clients) - 1)
+            clients[i + 1]["t"] = clients[i]["t"]
+            clients[i + 1]["addr"] = 1 - clients[i]["addr"]
     return {"family": "worker", "kind": kind, "timeout": timeout, "clients": clients, "threads": rng.randrange(1, 3), "saturate": sat, "term_at": term_at,
+            "binds": binds,
             "keepalive": rng.choice([0, 2]), "buggify": {"pyticks": rng.randrange(3) == 0, "short_recv": rng.randrange(4) == 0, "spurious_select": rng.randrange(4) == 0}}
 
 
@@ -72,7 +83,8 @@ def run_worker(case, choices):
     sat = case.get("saturate")
     w = W.WorkerWorld(sim, kind, {"timeout": T, "graceful_timeout": 2 if not case.get("term_at") else max(2, T + 1), "keepalive": sat["keepalive"] if sat else case["keepalive"],
                                   "threads": case["threads"] if not sat else max(case["threads"], 1),
-                                  "worker_connections": (sat["n"] + case["threads"]) if sat else 10})
+                                  "worker_connections": (sat["n"] + case["threads"]) if sat else 10},
+                      extra_addrs=[("127.0.0.1", 8001)] if case.get("binds", 1) == 2 else ())
     p = w.start_worker()
     if sat:
         # max_keepalived = worker_connections - threads = n idle keep-alive connections are allowed; they fill ... the rest of
@@ -93,7 +105,7 @@ def run_worker(case, choices):
     for i, c in enumerate(case["clients"]):
         path = "/sleep/%s" % c["dur"] if c["dur"] else "/a"
         cl.append(w.add_client("c%d" % i, [["wait", c["t"]], ["connect"], ["send", "GET %s HTTP/1.1\r\nHost: h\r\nConnection: close\r\n\r\n" % path],
-                                           ["recv", 60.0]]))
+                                           ["recv", 60.0]], addr=w.addrs[c.get("addr", 0)] if len(w.addrs) > 1 else None))
     t_end = max([c["t"] + c["dur"] for c in case["clients"]] + [0.0]) + 3.0 * T + 2.0 + (sat["keepalive"] if sat else 0)
     ctx = lambda: "family=worker kind=%s timeout=%s (worker wait bound %s) threads=%d clients=%r t=%.2f" % (
         kind, T, T / 2.0, case["threads"], case["clients"], sim.now)
